@@ -151,7 +151,7 @@ def run_shard(args):
     t0 = time.time()
     res = {'shard': shard, 'evaluations': 0, 'status': {}, 'labels': {}, 'nt_hashes': [],
            'samples': [], 'failures': [], 'harness_errors': [], 'budget_hit': False,
-           'distinct': 0}
+           'distinct': 0, 'slowest': [0.0, None]}
     try:
         from hypothesis import given, seed as hseed
         prop = load_prop(pid)
@@ -197,7 +197,12 @@ def run_shard(args):
             if time.time() - t0 > budget:
                 res['budget_hit'] = True
                 return
-            record(case, safe_check(prop, case), i)
+            tc = time.time()
+            out = safe_check(prop, case)
+            dt = time.time() - tc
+            if dt > res['slowest'][0]:
+                res['slowest'] = [round(dt, 3), case]
+            record(case, out, i)
 
         body()
         res['nt_hashes'] = sorted(nt)
@@ -299,6 +304,7 @@ def run_property(pid, tier, seed):
     samples, failures, herrs = [], {}, []
     budget_hit = False
     distinct = 0
+    slowest = [0.0, None]
     for r in results:
         ev += r['evaluations']
         distinct += r['distinct']
@@ -317,6 +323,8 @@ def run_property(pid, tier, seed):
                 failures[f['bucket']]['count'] += f['count']
         herrs.extend(r['harness_errors'])
         budget_hit = budget_hit or r['budget_hit']
+        if r['slowest'][0] > slowest[0]:
+            slowest = r['slowest']
     if enum_info:
         ev += enum_info.get('evaluations', 0)
         nt.update(enum_info.get('nt_hashes', []))
@@ -390,6 +398,7 @@ def run_property(pid, tier, seed):
             'status_histogram': status,
             'class_histogram': dict(sorted(labels.items())),
             'time_budget_hit': budget_hit,
+            'slowest_case_s': slowest[0],
             'failure_buckets': {b: f['count'] for b, f in failures.items()},
             'known_findings_seen': sorted(matched_known),
         },
@@ -403,6 +412,8 @@ def run_property(pid, tier, seed):
 
     for ln in out_lines:
         print(ln)
+    if slowest[0] > 20:
+        print('NOTE: slowest case took %.1fs: %s' % (slowest[0], json.dumps(slowest[1], default=str)[:600]))
     print('%s %s seed=%s: evaluations=%d distinct_nontrivial=%d status=%s wall=%.1fs' % (
         pid, tier, seed, ev, len(nt), json.dumps(status, sort_keys=True), wall))
     if nviol:
